@@ -46,7 +46,8 @@ VALUE_MENU = {
 SEQ_MENU = {
     "seq-plus": "__X__ + 1", "seq-compare": "__X__ > 1", "seq-slice": "__X__[0:1]", "seq-neg": "-__X__",
     "aggregate-only": "__X__.Aggregate(lambda a, v: a + v)", "aggregate-func-func": "__X__.Aggregate(lambda v: v, lambda a, v: a + v)",
-    "seq-step-slice": "__X__[::2]", "seq-unknown-op": "__X__.OrderBy(lambda zz: zz)", "seq-call": "__X__(1)",
+    "seq-step-slice": "__X__[::2]", "seq-plus-self": "__X__ + __X__", "seq-minus-self": "__X__ - __X__", "seq-times-self": "__X__ * __X__",
+    "seq-div-self": "__X__ / __X__", "seq-mod-self": "__X__ % __X__", "seq-pow-self": "__X__ ** __X__", "seq-compare-self": "__X__ == __X__", "seq-unknown-op": "__X__.OrderBy(lambda zz: zz)", "seq-call": "__X__(1)",
 }
 OBJ_CALL_MENU = {      # applied to a method call node  recv.m(args)
     "kwargs": None, "getattribute": None,
